@@ -14,7 +14,7 @@ import tempfile
 import corpus
 from run import Broken, Violation, VERIF, REPO
 
-GEN = ["Effects", "ModState", "Ambient", "Observers"]
+GEN = ["Effects", "ModState", "Ambient", "Observers", "ModCells", "ValueKinds"]
 RULE = ("cases = (fixture or generated document x hash seed) digests in fresh interpreters + (result x random observer "
         "sequence) + (payload stream x random op sequence vs the Lean stream model) + repeat/in-place checks (all framing "
         "variants: bytes in front of / behind the document) with a frame check of every process-global cell + (document x "
@@ -29,6 +29,10 @@ RULE = ("cases = (fixture or generated document x hash seed) digests in fresh in
         "with EVERY argument combination (introspected), followed by the defaults and the same request again, each answer "
         "compared with the answer on a pristine result; payload streams consumed after all were collected; generated decks with "
         "alt texts present / empty / absent; PptxSlide.get_text argument sequences vs the Lean slide-text model; "
+        "+ (document x byte-order mark): one document per text extension re-encoded as UTF-8-BOM / UTF-16 LE / BE / UTF-32 and generated marked HTML, "
+        "and workbooks over the alphabet of cell values (uncached plain / array / data-table formulas, rich text, durations, errors): in every digest "
+        "environment, repeated in process with the allocator perturbed in between, and in the history set, where EVERY document is also compared "
+        "with what it yields in a forked child of the still pristine interpreter (nothing extracted before); "
         "distinct = distinct (input, seed) / (input, sequence) pairs; non-trivial = result has units/images/tables or "
         "the sequence contains at least two different observers")
 ASSUMPTIONS = [
@@ -40,6 +44,8 @@ ASSUMPTIONS = [
     "harness/workers/c06_clock.py replaces every Python-level read of the wall clock (datetime/date classes incl. from-imports, time.time/time_ns/localtime/gmtime/ctime/asctime/strftime); a C extension calling the OS clock directly is not faked — it would show only through the real-clock control environment and the ambient-read inventory",
     "openpyxl takes core properties from its constant ARC_CORE only and fills missing dates from the clock (read from the installed openpyxl's AST by tools/gen/ambient.py; tied by the XLSX relocation matrix vs S2T.CoreDates.dates)",
     "tools/gen/ambient.py recognises the clock / zone / randomness / process / temp-name / file-system reads it lists by dotted name (an alias such as `n = datetime.now; n()` is followed only through imports)",
+    "tools/gen/modcells.py classifies module-/class-level values, defaults and elements of module-level containers by runtime type (iterator / stream / rng / lock / instance); state held in closures, in third-party modules or behind C-level objects without __next__/tell/getstate is not seen",
+    "tools/gen/valuekinds.py: the kinds of cell values a load_workbook call site hands out are those the installed openpyxl hands out for the probe workbook under the flags written at the site (read through iter_rows(values_only=True)); flags that are not literals are a translator note",
     "one image object (or a unit's view of it) asked twice for its bytes hands out the same rewound stream (S2T.Observe.getBytes): consuming an earlier handed-out stream after asking again is the caller's aliasing, not judged",
 ]
 TRUSTED = ["tools/gen/effects.py, tools/gen/modstate.py, tools/gen/ambient.py, tools/gen/observers.py (AST inventories)", "harness/workers/c06_state.py (cell fingerprints)",
@@ -148,6 +154,46 @@ def _framing_variants(ctx, fx, per_ext=None):
     return out
 
 
+def _encoding_variants(ctx, fx):
+    """the smallest UTF-8 decodable fixture of every extension under every byte-order mark (those the extractor
+    accepts) + generated marked HTML documents"""
+    from builders import c06_kinds
+    by_ext = {}
+    for n, d in fx:
+        ext = os.path.splitext(n)[1].lower()
+        if "password" in n or not corpus.file_type_of(n) or len(d) > 60_000:
+            continue
+        if ext not in by_ext or len(d) < len(by_ext[ext][1]):
+            if any(True for _ in c06_kinds.encodings(n, d)):
+                by_ext[ext] = (n, d)
+    out = []
+    for ext in sorted(by_ext):
+        name, data = by_ext[ext]
+        root, e = os.path.splitext(name)
+        for kind, b in c06_kinds.encodings(name, data):
+            ctx.count("encoding/tried")
+            if _results_of(name, b):
+                ctx.count("encoding/accepted/" + ext.lstrip("."))
+                out.append((f"{root}~enc-{kind}{e}", b))
+    out += [(n, d) for n, d in c06_kinds.marked_html(ctx.rng) if _results_of(n, d)]
+    # ODF packages with images whose optional frame names are absent (fallback names are made up by the extractor)
+    per = {}
+    for n, d in sorted(fx, key=lambda x: len(x[1])):
+        ext = os.path.splitext(n)[1].lower()
+        if ext in (".odt", ".odp", ".ods", ".odg") and len(d) < 600_000 and per.get(ext, 0) < 2 and "password" not in n:
+            b = c06_kinds.odf_unnamed(d)
+            if b is not None and _results_of(n, b):
+                per[ext] = per.get(ext, 0) + 1
+                ctx.count("unnamed/" + ext.lstrip("."))
+                out.append((os.path.splitext(n)[0] + "~unnamed" + ext, b))
+    return out
+
+
+def _cell_kind_docs(ctx):
+    from builders import c06_kinds
+    return [(n, d) for n, d in c06_kinds.xlsx_kinds(ctx.rng) if _results_of(n, d)]
+
+
 def _pair_docs(ctx, rounds):
     """[(tag, (nameA, bytesA), (nameB, bytesB))] with unique names"""
     from builders import c06_decls
@@ -209,7 +255,7 @@ def _history_digests(td, seqs, volatile=()):
                 with open(p, "wb") as fh:
                     fh.write(data)
             docs.append([name, p])
-        jobs.append({"docs": docs, "order": list(range(len(docs))), "pass2": False, "volatile": list(volatile)})
+        jobs.append({"docs": docs, "order": list(range(len(docs))), "pass2": False, "volatile": list(volatile), "fresh": False})
     return _run_history_workers(jobs)
 
 
@@ -255,7 +301,7 @@ def _history(ctx, docs, suspects_first=()):
                 o = list(range(n))
                 ctx.rng.shuffle(o)
                 orders.append(o)
-        outs = _run_history_workers([{"docs": paths, "order": o, "pass2": True, "volatile": vol} for o in orders])
+        outs = _run_history_workers([{"docs": paths, "order": o, "pass2": True, "volatile": vol, "fresh": k == 0} for k, o in enumerate(orders)])
         if any(o is None for o in outs):
             broken.append(Broken("correspondence", "c06.worker", "history worker failed"))
             outs = [o for o in outs if o is not None]
@@ -264,6 +310,8 @@ def _history(ctx, docs, suspects_first=()):
         bad, state_changers = [], []
         for name, _ in docs:
             vals = [o["pass1"].get(name) for o in outs] + [o["pass2"].get(name) for o in outs]
+            # … and what it yields where nothing was extracted before (forked child of the pristine worker)
+            vals += [o["fresh"][name] for o in outs if o.get("fresh") and o["fresh"].get(name)]
             ctx.case(("history", name, len(orders)), nontrivial=not str(vals[0]).startswith(("ERR", "OTHER")))
             ctx.count("history/" + ("same" if len(set(vals)) == 1 else "DIFFERENT"))
             if len(set(vals)) != 1:
@@ -636,11 +684,16 @@ def _repeat_loop(ctx, picks, vol, clocks):
         cells = []
         c06_clock.set_clock(clocks[0])
         after = c06_state.cells()
+        keep = []
         for k in range(2):
             c06_clock.set_clock(clocks[k])
             before, nmods = after, len(sys.modules)
             try:
-                outs.append([_full_json(r) for r in fn(buf, name)])
+                rs = list(fn(buf, name))
+                keep.append(rs)       # the first results stay alive, and the allocator's free lists are filled: an object
+                keep.append([bytes(n) for n in range(8, 400, 8) for _ in range(12)] + [type("K", (), {})() for _ in range(300)]
+                            + [{"k": i} for i in range(200)])      # of the second run does not land on the address of its twin
+                outs.append([_full_json(r) for r in rs])
             except corpus.family() as e:
                 outs.append("ERR:" + type(e).__name__)
             after = c06_state.cells()
@@ -854,6 +907,11 @@ def correspondence(ctx):
     framed = _framing_variants(ctx, fx, per_ext=None if ctx.thorough else 7)
     pairs = _pair_docs(ctx, ctx.n(2, 8))
     pair_docs = [d for _, a, b in pairs for d in (a, b)]
+    encv = _encoding_variants(ctx, fx)
+    kinds = _cell_kind_docs(ctx)
+    ctx.count("variants/encodings", len(encv))
+    ctx.count("variants/cell-kinds", len(kinds))
+    variants += encv + kinds
     for n, d in variants + framed + pair_docs:      # every generated document can be put into a replay file by content
         _DATA[n] = d
     for tag, a, b in pairs[:3]:
@@ -869,8 +927,8 @@ def correspondence(ctx):
                 fh.write(b)
             fx_paths.append((name, p))
         broken += _hash_seeds(ctx, fx_paths)
-    broken += _repeat_and_input(ctx, fx + variants, must=framed + pair_docs + opc + members)
-    broken += _history(ctx, _history_set(ctx, fx, pairs, framed) + (opc if ctx.thorough else ctx.rng.sample(opc, min(6, len(opc)))))
+    broken += _repeat_and_input(ctx, fx + variants, must=framed + pair_docs + opc + members + encv + kinds)
+    broken += _history(ctx, _history_set(ctx, fx, pairs, framed) + (opc if ctx.thorough else ctx.rng.sample(opc, min(6, len(opc)))) + encv + kinds)
     broken += _observer_sequences(ctx, fx + variants)
     broken += _observer_arg_sequences(ctx, fx + variants, must=decks)
     broken += _slide_text_model(ctx)
@@ -934,20 +992,22 @@ def search(ctx, broken):
     opc = [(n, d) for n, d in c06_env.opc_docs(sub, fx, corpus.file_type_of) if _results_of(n, d)]
     decks = [(n, d) for n, d in c06_env.rich_decks(sub, 12) if _results_of(n, d)]
     members = c06_env.member_docs(sub, fx, corpus.file_type_of, _results_of)
-    for n, d in framed + pair_docs + opc + decks + members:
+    encv = _encoding_variants(sub, fx)
+    kinds = _cell_kind_docs(sub)
+    for n, d in framed + pair_docs + opc + decks + members + encv + kinds:
         _DATA[n] = d
-    found = _repeat_and_input(sub, [], must=framed + pair_docs + opc + members)
+    found = _repeat_and_input(sub, [], must=framed + pair_docs + opc + members + encv + kinds)
     found = [b for b in found if (b.case or {}).get("kind") != "modstate"]
     if not found:
         # observer-side obligations (effects inventory, accessor inventory, instance caches) are decided by call sequences
         found += _observer_arg_sequences(sub, [(n, d) for n, d in fx if len(d) < 2_000_000] + opc[:6], must=decks)
     if not found:
-        hist = named + [d for d in _history_set(sub, [(n, d) for n, d in fx if len(d) < 300_000], pairs, framed[::4]) if d[0] not in {n for n, _ in named}]
+        hist = named + [d for d in _history_set(sub, [(n, d) for n, d in fx if len(d) < 300_000], pairs, framed[::4]) + encv + kinds if d[0] not in {n for n, _ in named}]
         found += [b for b in _history(sub, hist) if (b.case or {}).get("kind") == "history"]
     if not found:
         with tempfile.TemporaryDirectory(prefix="s2t_c06s_") as td:
             extra = []
-            for i, (n, d) in enumerate(opc + decks + members):
+            for i, (n, d) in enumerate(opc + decks + members + encv + kinds):
                 p = os.path.join(td, f"g{i}_" + os.path.basename(n))
                 with open(p, "wb") as fh:
                     fh.write(d)
